@@ -336,6 +336,63 @@ func runC15(c *fw.Ctx) {
 			c.DistinctHash(spec.Hash(in()))
 		})
 	})
+	// one callback is held back for a long time (quick: 7 s, thorough: 40 s) while the others are long done: the call is
+	// still there when the harness lets the callback go. The verdict does not depend on the clock: "the call returned while
+	// a callback had not" is a fact of the event order; the clock only says how long the harness keeps looking.
+	c.Cases("foreach-async-held-callback", c.N(2, 6), true, func(i int, r *rng.R) {
+		hold := 7 * time.Second
+		if !c.Quick() {
+			hold = 40 * time.Second
+		}
+		n := []int{1, 2, 5, 3, 9, 17}[i%6]
+		onList := i%2 == 0
+		held := r.Intn(n)
+		in := func() string {
+			return fmt.Sprintf("ForEachAsync (list=%v) over %d elements; callback number %d does not return for %v, the others return at once", onList, n, held, hold)
+		}
+		guard(c, in, func() {
+			setHookTable(nil)
+			release := make(chan struct{})
+			returned := make(chan struct{})
+			var calls int64
+			body := func() {
+				if atomic.AddInt64(&calls, 1)-1 == int64(held) {
+					<-release
+				}
+			}
+			go func() {
+				defer close(returned)
+				drive.Protect(func() {
+					if onList {
+						vals := make([]any, n)
+						for j := range vals {
+							vals[j] = j
+						}
+						at.NewList(vals...).ForEachAsync(func(int, any) { body() })
+					} else {
+						o := at.NewObject()
+						for j := 0; j < n; j++ {
+							o.Set(fmt.Sprintf("k%d", j), j)
+						}
+						o.ForEachAsync(func(string, any) { body() })
+					}
+				})
+			}()
+			early := false
+			select {
+			case <-returned:
+				early = true
+			case <-time.After(hold):
+			}
+			close(release)
+			<-returned
+			c.Count("held_callback_calls")
+			c.DistinctHash(spec.Hash(in()))
+			if early {
+				c.Violate("foreach-async-returns-before-callbacks", in(), "the call returns only after every callback has returned", "it returned while the held callback was still waiting")
+			}
+		})
+	})
 	// (2) MapAsync == Map for pure functions (incl. functions that map nested containers asynchronously themselves)
 	c.Cases("map-async", c.N(200, 40000), false, func(i int, r *rng.R) {
 		ac := genAsyncCase(c, r)
